@@ -174,7 +174,12 @@ func hook(c rescorr.Case, ms *yang.Modules, errs []error, out *rescorr.GoOut) {
 		}
 		// --- namespace attribution
 		lib := impliedCase(e) || unwrittenIO(chain[len(chain)-1])
-		ns := e.Namespace().Name
+		ns := ""
+		if v := e.Namespace(); v != nil {
+			ns = v.Name
+		} else {
+			add("namespace: %s %s: Namespace() returned nil (documented: never nil)", tree, path)
+		}
 		im, imErr := e.InstantiatingModule()
 		key := tree + " " + path
 		visited[key] = true
@@ -519,6 +524,56 @@ func corpus() []rescorr.Case {
 			`submodule part { belongs-to owner { prefix o; } include part2; grouping g { leaf gl { type string; } }
 			   container sub-c { config false; uses g; leaf s { type string; } } rpc sub-rpc { output { leaf r { type string; } } } }`,
 			`submodule part2 { belongs-to owner { prefix o; } container p2c { leaf q { type string; } uses g; } }`),
+		// s1 includes s2, s2 augments another module: whatever the order of the owner's include
+		// statements, and also when the owner does not list s2 at all, the grafted nodes are m's
+		mk(`a /a urn:a a
+			a /a/c urn:a a
+			a /a/c/own urn:a a
+			a /a/c/grafted urn:m m
+			a /a/c/box urn:m m
+			a /a/c/box/deep urn:m m
+			m /m urn:m m
+			m /m/from-s1 urn:m m
+			m /m/from-s1/l urn:m m
+			m /m/from-s2 urn:m m
+			m /m/from-s2/l urn:m m`,
+			`module a { namespace "urn:a"; prefix a; container c { leaf own { type string; } } }`,
+			`module m { namespace "urn:m"; prefix m; include s2; include s1; }`,
+			`submodule s1 { belongs-to m { prefix m; } include s2; container from-s1 { leaf l { type string; } } }`,
+			`submodule s2 { belongs-to m { prefix m; } import a { prefix a; } container from-s2 { leaf l { type string; } }
+			   augment "/a:c" { leaf grafted { type string; } container box { leaf deep { type string; } } } }`),
+		mk(`a /a urn:a a
+			a /a/c urn:a a
+			a /a/c/own urn:a a
+			a /a/c/grafted urn:m m
+			a /a/c/box urn:m m
+			a /a/c/box/deep urn:m m
+			m /m urn:m m
+			m /m/from-s1 urn:m m
+			m /m/from-s1/l urn:m m
+			m /m/from-s2 urn:m m
+			m /m/from-s2/l urn:m m`,
+			`module a { namespace "urn:a"; prefix a; container c { leaf own { type string; } } }`,
+			`module m { namespace "urn:m"; prefix m; include s1; include s2; }`,
+			`submodule s1 { belongs-to m { prefix m; } include s2; container from-s1 { leaf l { type string; } } }`,
+			`submodule s2 { belongs-to m { prefix m; } import a { prefix a; } container from-s2 { leaf l { type string; } }
+			   augment "/a:c" { leaf grafted { type string; } container box { leaf deep { type string; } } } }`),
+		mk(`a /a urn:a a
+			a /a/c urn:a a
+			a /a/c/own urn:a a
+			a /a/c/grafted urn:m m
+			a /a/c/box urn:m m
+			a /a/c/box/deep urn:m m
+			m /m urn:m m
+			m /m/from-s1 urn:m m
+			m /m/from-s1/l urn:m m
+			m /m/from-s2 urn:m m
+			m /m/from-s2/l urn:m m`,
+			`module a { namespace "urn:a"; prefix a; container c { leaf own { type string; } } }`,
+			`module m { namespace "urn:m"; prefix m; include s1; }`,
+			`submodule s1 { belongs-to m { prefix m; } include s2; container from-s1 { leaf l { type string; } } }`,
+			`submodule s2 { belongs-to m { prefix m; } import a { prefix a; } container from-s2 { leaf l { type string; } }
+			   augment "/a:c" { leaf grafted { type string; } container box { leaf deep { type string; } } } }`),
 		// augment from a submodule into another module, and into its own module
 		mk(`a /a urn:a a
 			a /a/c urn:a a
